@@ -69,7 +69,7 @@ Section WithCodec.
     exists s dur, run dec_m h = Ok s /\ Inv s dur /\ incl dur (hist_bulks h) /\
                   s_acked s = acked_of h /\ s_tried s = tried_of h.
   Proof.
-    intros h ((Hwf & _) & Hff).
+    intros h (Hwf & _ & Hff).
     destruct (run_inv dec_m dec_d h st0 [] (inv0 dec_m dec_d) Hwf Hff) as (s & ext & Hr & HI & Hin).
     exists s, ext. cbn [app] in HI.
     split; [exact Hr |]. split; [exact HI |]. split; [exact Hin |]. split.
@@ -135,8 +135,8 @@ Section WithCodec.
        (forall b d, In b (hist_bulks h') -> In d (b_docs b) -> d_id d <> id) ->
        fetch dec_d (s_disk s') p' id = Absent /\ (forall t, ~ In id (search p' t))).
   Proof.
-    intros h h' s p s' p' ((Hwf & Hfun) & Hff) Hr Hp Hr' Hp'.
-    unfold fault_free in Hff. apply Forall_app in Hff. destruct Hff as (Hff1 & Hff2).
+    intros h h' s p s' p' (Hwf & Hfun & Hff) Hr Hp Hr' Hp'.
+    apply Forall_app in Hff. destruct Hff as (Hff1 & Hff2).
     rewrite hist_bulks_app in Hwf, Hfun. apply Forall_app in Hwf. destruct Hwf as (Hw1 & Hw2).
     destruct (run_inv dec_m dec_d h st0 [] (inv0 dec_m dec_d) Hw1 Hff1) as (s1 & dur & Hr1 & HI & Hin).
     unfold run in Hr. rewrite Hr in Hr1. inversion Hr1; subst s1. clear Hr1. cbn [app] in HI.
